@@ -107,7 +107,10 @@ def gen_history(rng, tier, multi):
             files = files + [extra]
             new_regs = [[d, k] for d in range(len(defs)) if rng.random() < 0.9] or [[0, k]]
         if how in ('first', 'new_searcher') or regs is None:
-            regs = [[d, k] for d in range(len(defs)) for k in range(len(files))
+            # (with a file-level constraint some registrations opt out of it: whether a search
+            # object opted out is a property of THIS searcher's registrations only)
+            regs = [[d, k] + ([rng.random() < 0.75] if use_ts else [])
+                    for d in range(len(defs)) for k in range(len(files))
                     if rng.random() < 0.85] or [[0, 0]]
         else:
             regs = regs + new_regs
